@@ -770,8 +770,9 @@ class Facts:
         """fact base with new private helpers virtually inlined into their callers (see inline.py); `.raw` is the
         untouched fact base"""
         import inline
-        raw = cls(j)
-        inl, rep = inline.inline_new_helpers(j)
+        j2, amap = inline.alias_renames(j)
+        raw = cls(j2)
+        inl, rep = inline.inline_new_helpers(j2)
         if rep.get('inlined'):
             F = cls(inl)
             F.inlined = rep['inlined']
@@ -779,6 +780,8 @@ class Facts:
             F = raw
             F.inlined = []
         F.raw = raw
+        F.renamed = amap
+        raw.renamed = amap
         return F
 
     # ----------------------------------------------------------- selections
